@@ -445,6 +445,10 @@ def prop_svd(case, stats):
         s0 = sp[0]
         if np.any(s0 < 0) or np.any(np.diff(s0) > TOL0 * max(1.0, float(s0.max()))):
             raise Violation('svd p=%d: s_0 not descending and non-negative: %r' % (p, s0.tolist()))
+        # implied by the predicates above (orthogonal factors, ordered non-negative diagonal): s_0 are THE singular values
+        sv = np.linalg.svd(Ap[0], compute_uv=False)
+        if np.max(np.abs(s0 - sv)) > 1e-10 * max(1.0, float(sv.max())):
+            raise Violation('svd p=%d: s_0 = %r, singular values of A_0 are %r' % (p, s0.tolist(), sv.tolist()))
 
 
 # ---------------------------------------------------------------------------
